@@ -1,5 +1,6 @@
 "C04 — text content is placed verbatim: inline text and wrapped lines"
 import re
+import os
 from hypothesis import strategies as st
 from vlib import core, abbr_model as M, abbr_gen as G
 from vlib.core import guard
@@ -309,3 +310,10 @@ def run(ctx):
     ctx.exhaustive('every complete text of length ≤ %d over the 26-symbol alphabet (markup alphabet minus `$`) in 3 positions; every such text ≤ 2 as wrap line in 3 abbreviations' % L)
     ctx.run_parallel('shard_inline', extra=(ctx.pick(300, 4000),))
     ctx.run_parallel('shard_wrap', extra=(ctx.pick(400, 5000),))
+    if ctx.thorough or os.environ.get('VERIF_FUZZ'):
+        ctx.run_atheris('inline', ctx.pick(300, 3000), guided=True)
+        ctx.run_atheris('wrap', ctx.pick(300, 3000), guided=True)
+
+
+# coverage-guided layer (thorough tier): the Hypothesis strategy under libFuzzer (vlib/fuzz.py, guided mode)
+GUIDED = {'inline': lambda: G.scripts(P_INLINE).map(lambda sc: {'script': sc}), 'wrap': wrap_case}
